@@ -478,11 +478,15 @@ Section Docs.
     rewrite (p_string_ok k [] _ K). cbn [obind rev app os_update fresh os_stage os_key].
     assert (L1 : (length (s_colb st ++ 58%N :: s_cola st ++ print st v ++ rest) < f)%nat).
     { cbn [length] in L. rewrite app_length in L. cbn [length] in L. lia. }
-    destruct (p_object_ws (s_colb st) Wcolb f _ _ L1) as (f2 & L2 & E2). rewrite E2.
+    match goal with |- context [p_object f ?os0 (s_colb st ++ ?tl0)] =>
+        destruct (p_object_ws (s_colb st) Wcolb f os0 tl0 L1) as (f2 & L2 & E2) end. rewrite E2.
     destruct f2 as [|f2]; [cbn in L2; lia|]. rewrite p_object_step. cbn [mem existsb N.eqb Pos.eqb orb os_stage].
     assert (L3 : (length (s_cola st ++ print st v ++ rest) < f2)%nat) by (cbn [length] in L2; lia).
-    destruct (p_object_ws (s_cola st) Wcola f2 _ _ L3) as (f3 & L4 & E3). rewrite E3.
-    destruct (V f3 _ rest eq_refl eq_refl L4 T) as (f4 & L5 & E4). rewrite E4.
+    match goal with |- context [p_object f2 ?os0 (s_cola st ++ ?tl0)] =>
+        destruct (p_object_ws (s_cola st) Wcola f2 os0 tl0 L3) as (f3 & L4 & E3) end. rewrite E3.
+    cbn [os_key os_val os_stage os_obj fresh].
+    match goal with |- context [p_object f3 ?os0 (print st v ++ rest)] =>
+      destruct (V f3 os0 rest eq_refl eq_refl L4 T) as (f4 & L5 & E4) end. rewrite E4.
     exists f4. split; [exact L5|reflexivity].
   Qed.
 
@@ -507,11 +511,13 @@ Section Docs.
       destruct (pair_ok kv Hkv f o (s_cb st ++ 44 :: s_ca st ++ pairs st (kv2 :: l') ++ tail) L) as (f1 & L1 & E1).
       { apply term_start_ws; [exact Wcb|reflexivity]. }
       rewrite E1.
-      destruct (p_object_ws (s_cb st) Wcb f1 _ _ L1) as (f2 & L2 & E2). rewrite E2.
+      match goal with |- context [p_object f1 ?os0 (s_cb st ++ ?tl0)] =>
+        destruct (p_object_ws (s_cb st) Wcb f1 os0 tl0 L1) as (f2 & L2 & E2) end. rewrite E2.
       destruct f2 as [|f2]; [cbn in L2; lia|]. rewrite p_object_step. cbn [mem existsb N.eqb Pos.eqb orb].
       rewrite os_write_full. cbn [obind].
       assert (L3 : (length (s_ca st ++ pairs st (kv2 :: l') ++ tail) < f2)%nat) by (cbn [length] in L2; lia).
-      destruct (p_object_ws (s_ca st) Wca f2 _ _ L3) as (f3 & L4 & E3). rewrite E3.
+      match goal with |- context [p_object f2 ?os0 (s_ca st ++ ?tl0)] =>
+        destruct (p_object_ws (s_ca st) Wca f2 os0 tl0 L3) as (f3 & L4 & E3) end. rewrite E3.
       destruct (IH ltac:(discriminate) f3 (obj_set (fst kv) (canon (snd kv)) o) tail L4 T) as (f4 & k & v & o' & L5 & E4 & F).
       rewrite E4. exists f4, k, v, o'. split; [exact L5|]. split; [reflexivity|exact F].
   Qed.
@@ -531,7 +537,8 @@ Section Docs.
         as (f2 & k & v & o' & L2 & E2 & F).
       { apply term_start_ws; [exact Wc|reflexivity]. }
       change os_empty with (fresh []). rewrite E2.
-      destruct (p_object_ws (s_close st) Wc f2 _ _ L2) as (f3 & L3 & E3). rewrite E3.
+      match goal with |- context [p_object f2 ?os0 (s_close st ++ ?tl0)] =>
+        destruct (p_object_ws (s_close st) Wc f2 os0 tl0 L2) as (f3 & L3 & E3) end. rewrite E3.
       destruct f3 as [|f3]; [cbn in L3; lia|]. rewrite p_object_step. cbn [mem existsb N.eqb Pos.eqb orb].
       rewrite os_write_full. cbn [obind fresh os_obj]. rewrite F. reflexivity.
   Qed.
